@@ -121,13 +121,14 @@ func QBig(twoA int, x float64) float64 {
 	var term *big.Float
 	var k int
 	erfc := 0.0
+	div := newF()
 	if twoA%2 == 0 {
 		k = twoA / 2
 		term = newF().SetInt64(1)
 		for j := 0; j < k; j++ {
 			sum.Add(sum, term)
 			term.Mul(term, bx)
-			term.Quo(term, newF().SetInt64(int64(j+1)))
+			term.Quo(term, div.SetInt64(int64(j+1)))
 		}
 	} else {
 		k = (twoA - 1) / 2
@@ -137,12 +138,12 @@ func QBig(twoA int, x float64) float64 {
 		// term_0 = x^(1/2)/Gamma(3/2) = 2 sqrt(x/pi)
 		term = newF().Sqrt(newF().Quo(bx, bigPi))
 		term.Mul(term, newF().SetInt64(2))
+		bx2 := newF().Mul(bx, newF().SetInt64(2))
 		for j := 0; j < k; j++ {
 			sum.Add(sum, term)
-			term.Mul(term, bx)
-			// divide by (j + 3/2) = (2j+3)/2
-			term.Mul(term, newF().SetInt64(2))
-			term.Quo(term, newF().SetInt64(int64(2*j+3)))
+			// multiply by x / (j + 3/2) = 2x / (2j+3)
+			term.Mul(term, bx2)
+			term.Quo(term, div.SetInt64(int64(2*j+3)))
 		}
 	}
 	sum.Mul(sum, ex)
